@@ -84,6 +84,18 @@ def run_impl(line):
         if op == 'poly.binop':
             q = mkpoly(a[2]); p = mkpoly(a[1]); f = OPS[a[0]]
             return ';'.join([g(lambda: fp(f(p, q))), g(lambda: fp(f(q, p))), fp(p), fp(q)])
+        if op == 'poly.exh':
+            # x op y for EVERY y of dimension dy over the ring of x: digest of the real results ; digest of the reference
+            f = OPS[a[0]]; p = mkpoly(a[1]); k, x = vec(a[1]); dy = int(a[2])
+            h = hr = 0
+            for y in itertools.product(range(1 << k), repeat=dy):
+                r = f(p, Poly(list(y), k))
+                for c in r.ival:
+                    if type(c) is not int or c < 0: return '!coefficient'
+                h = digest(h, r.size, r.ival)
+                hr = digest(hr, k, ref_op(a[0], k, x, list(y)))
+            if fp(p) != fl(k, x): return '!operand-changed'
+            return '%d;%d' % (h, hr)
         p = mkpoly(a[0])
         if op == 'poly.setdim':
             p.dim = int(a[1]); return fp(p)
@@ -132,6 +144,12 @@ def run_impl(line):
         raise RuntimeError('unknown op ' + op)
     return guarded(go)
 
+
+DIGEST_MOD = (1 << 61) - 1
+def digest(h, size, l):
+    h = (h * 31 + size + 1000 * len(l) + 7) % DIGEST_MOD
+    for c in l: h = (h * 31 + c + 3) % DIGEST_MOD
+    return h
 
 # ---------------------------------------------------------------------------------------------
 # independent reference on plain lists
@@ -214,6 +232,10 @@ def check_impl(line, res):
         elif op == 'poly.ofbytes': k = 8; l = list(unhx(a[0]))
         else: k, l = vec(a[0])
         return expect(k, fit(l, d), res)
+    if op == 'poly.exh':
+        r = res.split(';')
+        if len(r) != 2: return bad('unexpected exception / %s' % res)
+        return None if r[0] == r[1] else bad('digest over all right operands of dim %s differs from the reference' % a[2])
     if op == 'poly.binop':
         (k, x), (k2, y) = vec(a[1]), vec(a[2])
         r = res.split(';')
@@ -500,6 +522,13 @@ def cases(tier, rng):
                 if not keep: continue
                 shape = 'empty-empty' if dx == dy == 0 else 'one-empty' if 0 in (dx, dy) else 'equal' if dx == dy else 'unequal'
                 yield from pair_lines(k, x, y, 'small.k%d.binop.%s' % (k, shape))
+    # 2b. EVERY ordered pair of vectors of dims 0..4 over k in {1,2,3}: one line = one left operand x all right operands of one dimension
+    for k in (1, 2, 3):
+        for x in all_vectors(k, 4):
+            for dy in range(5):
+                for o in BOPS:
+                    if quick and rng.random() > (0.2 if k == 1 else 0.02 if k == 2 else 0.0015 if dy == 4 else 0.004): continue
+                    yield 'poly.exh %s %s %d' % (o, pt(k, x), dy), 'exh.k%d.dy%d' % (k, dy)
     # 3. every index expression on dims 0..4 (values distinct so that order is visible)
     for k, xs in ((3, [[], [5], [1, 6], [3, 1, 4], [7, 2, 5, 1]]), (8, [[200, 7, 99], [1, 2, 3, 4, 250]]), (0, [[-3, 7, 1 << 40], []])):
         for x in xs:
